@@ -941,6 +941,17 @@ fn gen_c04(ctx: &mut Ctx) {
             }
         }
     }
+    // uniform data (all 00, all FF, all 10: what fillers and padding look like) of every length class up to 255, in owned
+    // and borrowed buffers, for the types the protocol uses
+    for t in [0u8, 1, 2, 3, 4, 5, 6, 0x42] {
+        for fill in [0x00u8, 0xFF, 0x10] {
+            for len in [1usize, 2, 15, 16, 17, 18, 31, 32, 33, 100, 128, 254, 255] {
+                for borrowed in [false, true] {
+                    f2m_case(ctx, 0x0102, t, &vec![fill; len], borrowed, "uniform-data");
+                }
+            }
+        }
+    }
     // every first byte at the lengths in between (4..=9, 15, 17) for the types the protocol uses and two it does not
     for t in [0u8, 1, 2, 3, 4, 5, 6, 7, 0x42] {
         for b0 in 0..=255u16 {
